@@ -140,7 +140,10 @@ def _tlc_workdir(pid, name):
     d = fresh_outdir(pid, "tlc-" + name)
     for f in os.listdir(SPEC):
         if f.endswith(".tla") or f.endswith(".cfg"):
-            shutil.copy(os.path.join(SPEC, f), d)
+            try:
+                shutil.copy(os.path.join(SPEC, f), d)
+            except FileNotFoundError:
+                pass    # a file removed by someone else between listing and copying: not ours
     return d
 
 
